@@ -252,10 +252,13 @@ pub fn run(prop: &str, seed: u64, nhist: usize, trace_path: Option<&str>, rep: &
         // some histories run under a memory limit (a reused decoder must enforce it like a new one)
         let memlimit: Option<usize> = [None, None, Some(64usize), Some(5000), Some(300)][h % 5];
         let mk = |size: Option<u64>| LzmaDecoder::new(LzmaParams::new(LzmaProperties { lc: p.lc, lp: p.lp, pb: p.pb }, 4096, size), memlimit).unwrap();
+        let traced = h % 5 != 4;
         let mut d = mk(csize);
         let mut size_eff = csize;
         if let Some(e) = ev("new", json!({"kind": "lzma", "cprops": p.lc * 100 + p.lp * 10 + p.pb, "csize": enc_size(csize)}), proj1(&d)) {
-            trace.push(e);
+            if traced {
+                trace.push(e);
+            }
         }
         let nops = rng.gen_range(2..8);
         let mut just_reset = false;
@@ -266,6 +269,9 @@ pub fn run(prop: &str, seed: u64, nhist: usize, trace_path: Option<&str>, rep: &
                 match rng.gen_range(0..3) {
                     0 => Op::Reset(None),
                     1 => Op::Reset(Some(None)),
+                    // the all-ones size is an ordinary (unreachable) size for the raw decoder, not "unknown";
+                    // the projection hook cannot tell it from None, so these histories are not traced
+                    _ if !traced && rng.gen_bool(0.5) => Op::Reset(Some(Some(u64::MAX))),
                     _ => Op::Reset(Some(Some(pool[rng.gen_range(0..pool.len())].1.unwrap_or(17)))),
                 }
             } else {
@@ -284,7 +290,9 @@ pub fn run(prop: &str, seed: u64, nhist: usize, trace_path: Option<&str>, rep: &
                         Some(s) => enc_size(s),
                     };
                     if let Some(e) = ev("reset", json!({"newsize": ns}), proj1(&d)) {
-                        trace.push(e);
+                        if traced {
+                trace.push(e);
+            }
                     }
                 }
                 Op::Dec(i) => {
@@ -294,7 +302,9 @@ pub fn run(prop: &str, seed: u64, nhist: usize, trace_path: Option<&str>, rep: &
                     let r = dec1(&mut d, data);
                     desc.push(format!("decompress({})", name));
                     if let Some(e) = ev("decompress", json!({}), proj1(&d)) {
-                        trace.push(e);
+                        if traced {
+                trace.push(e);
+            }
                     }
                     let mut vs = vec![];
                     if r.0 == Verdict::Panic {
@@ -321,6 +331,41 @@ pub fn run(prop: &str, seed: u64, nhist: usize, trace_path: Option<&str>, rep: &
         }
         if rep.samples.len() < 3 {
             rep.sample(json!({"decoder": "LzmaDecoder", "props": p, "ops": desc}));
+        }
+    }
+    // ---------------- LzmaDecoder: every way of re-declaring the size, on every pool stream ----------------
+    // reset(Some(s)) must leave the object exactly like LzmaDecoder::new(.., s): also for sizes that look special
+    // elsewhere (the all-ones value is "unknown" only in a .lzma header; 0; values beyond 2^32)
+    for h in 0..nhist.min(8) {
+        let p = [Props { lc: 3, lp: 0, pb: 2 }, Props { lc: 0, lp: 4, pb: 4 }][h % 2];
+        let pool = lzma_pool(&mut rng, p);
+        let mk = |size: Option<u64>| LzmaDecoder::new(LzmaParams::new(LzmaProperties { lc: p.lc, lp: p.lp, pb: p.pb }, 4096, size), None).unwrap();
+        for (pi, (data, psize, name)) in pool.iter().enumerate() {
+            let l = psize.unwrap_or(17);
+            for (si, s) in [None, Some(u64::MAX), Some(u64::MAX - 1), Some(0), Some(l), Some(l + 1), Some((1u64 << 32) + l), Some(1 << 63)].iter().enumerate() {
+                let mut d = mk(if (pi + si) % 2 == 0 { None } else { Some(l) });
+                if (pi + si + h) % 3 == 0 {
+                    let _ = dec1(&mut d, &pool[(pi + 1) % pool.len()].0);
+                }
+                d.reset(Some(*s));
+                let r = dec1(&mut d, data);
+                let mut f = mk(*s);
+                let rf = dec1(&mut f, data);
+                rep.eval(hash_of(&(h, pi, si, "size-sweep")), true);
+                let mut vs = vec![];
+                if r.0 == Verdict::Panic {
+                    vs.push(format!("panic: {}", r.2));
+                } else if rf.0 != Verdict::Panic {
+                    if (r.0 == Verdict::Ok) != (rf.0 == Verdict::Ok) {
+                        vs.push(format!("verdict {:?} ({}), a new decoder with that size gives {:?} ({})", r.0, r.2, rf.0, rf.2));
+                    } else if r.0 == Verdict::Ok && r.1 != rf.1 {
+                        vs.push("output differs from a new decoder's".into());
+                    }
+                }
+                if !vs.is_empty() {
+                    rep.violation(prop, format!("LzmaDecoder reset(Some({:?})) then decompress({}): {}", s, name, vs.join("; ")), json!({"kind": "reuse", "decoder": "lzma", "seed": seed, "history": h, "ops": [format!("reset(Some({:?}))", s), name]}));
+                }
+            }
         }
     }
     // ---------------- Lzma2Decoder ----------------
